@@ -174,3 +174,74 @@ def readout_digest(chain):
     h.update(np.ascontiguousarray(full_sample(chain)).tobytes())
     h.update(np.ascontiguousarray(full_probs(chain)).tobytes())
     return h.hexdigest()[:16]
+
+
+# ---------------------------------------------------------------- numeric state of two samplers, compared attribute by attribute
+def _ns_skip(obj):
+    from simkit.rng import RecordingGenerator
+    from simkit.targets import Target, GradOf
+
+    return isinstance(obj, (RecordingGenerator, np.random.Generator, Target, GradOf))
+
+
+def numeric_state(obj, depth=0, seen=None):
+    """Every number reachable from a sampler's attributes, by attribute path, with representation differences
+    removed (python / numpy scalars, lists / tuples / arrays of numbers are the same thing here).  Generators,
+    the user's posterior and the progress printer are left out."""
+    if seen is None:
+        seen = set()
+    if depth > 6:
+        return "<deep>"
+    if obj is None or isinstance(obj, (bool, str)):
+        return obj
+    if isinstance(obj, (int, float, np.generic)):
+        f = float(obj)
+        return f if f == f else "nan"
+    if _ns_skip(obj):
+        return "<skip>"
+    if isinstance(obj, np.ndarray) and obj.ndim == 0 and obj.dtype != object:
+        return numeric_state(obj.item(), depth, seen)
+    if isinstance(obj, (np.ndarray, list, tuple)):
+        try:
+            a = np.asarray(obj, dtype=float)
+            return ("num", a.shape, hashlib.sha256(np.ascontiguousarray(a).tobytes()).hexdigest()[:16],
+                    float(np.nansum(a)) if a.size else 0.0)
+        except Exception:  # noqa - not a block of numbers
+            return [numeric_state(v, depth + 1, seen) for v in obj]
+    if isinstance(obj, dict):
+        return {str(k): numeric_state(v, depth + 1, seen) for k, v in obj.items()}
+    if callable(obj) and not hasattr(obj, "__dict__"):
+        return "<callable>"
+    if id(obj) in seen:
+        return "<cycle>"
+    d = getattr(obj, "__dict__", None)
+    if isinstance(d, dict):
+        seen.add(id(obj))
+        out = {}
+        for k, v in d.items():
+            if callable(v) and not hasattr(v, "__dict__"):
+                continue
+            if type(v).__name__ == "ChainProgressPrinter" or k in ("posterior", "grad", "ProgressPrinter"):
+                continue
+            out[k] = numeric_state(v, depth + 1, seen)
+        return out
+    return "<%s>" % type(obj).__name__
+
+
+def state_diff(a, b, path=""):
+    """Attribute paths at which two numeric_state() descriptions differ (a = reloaded, b = original)."""
+    out = []
+    if isinstance(a, dict) and isinstance(b, dict):
+        for k in sorted(set(a) | set(b)):
+            if k not in a:
+                out.append(path + "/" + k + " missing after reload")
+            elif k not in b:
+                out.append(path + "/" + k + " only after reload")
+            else:
+                out += state_diff(a[k], b[k], path + "/" + k)
+    elif isinstance(a, list) and isinstance(b, list) and len(a) == len(b):
+        for i, (x, y) in enumerate(zip(a, b)):
+            out += state_diff(x, y, path + "[%d]" % i)
+    elif a != b:
+        out.append("%s: %s after reload, %s for the original" % (path, str(a)[:90], str(b)[:90]))
+    return out
